@@ -4,9 +4,10 @@ set -e
 export GOFLAGS=-mod=mod GOPROXY=off GOSUMDB=off GOTOOLCHAIN=local PATH=/opt/veriftools/go1.26.8/bin:$PATH
 area=$1; out=$2
 V=/verif
+R=${VERIF_REPO:-/repo}
 mkdir -p $out
-$V/bin/simgen -profile $V/profiles/$area.json -out $out >/dev/null
-cp /repo/go.mod $out/go.mod; cp /repo/go.sum $out/go.sum
+$V/bin/simgen -repo $R -profile $V/profiles/$area.json -out $out >/dev/null
+cp $R/go.mod $out/go.mod; cp $R/go.sum $out/go.sum
 target=$(python3 -c "import json;print(json.load(open('$V/profiles/$area.json'))['target'])")
 tags=$(python3 -c "import json;print(json.load(open('$V/profiles/$area.json')).get('tags','verif'))")
-cd /repo && go1.26.8 build -modfile=$out/go.mod -overlay $out/overlay.json -tags "$tags" -o $out/$area.bin ./$target
+cd $R && go1.26.8 build -modfile=$out/go.mod -overlay $out/overlay.json -tags "$tags" -o $out/$area.bin ./$target
